@@ -152,7 +152,10 @@ class GopherEntry:
         if stat.S_ISDIR(statval[0]):
             self.type = self.type or "1"
             self.mimetype = self.mimetype or "application/gopher-menu"
-            self.handleeaext(self.fspath + "/", vfs)  # Add the / so we get /.abs
+            # Add the / so we get /.abs -- once: the path of a gophermap link
+            # to a directory may end with one already, and only the real file
+            # system takes "dir//.abstract" for "dir/.abstract".
+            self.handleeaext(self.fspath.rstrip("/") + "/", vfs)
             return
 
         self.handleeaext(self.fspath, vfs)
